@@ -9,6 +9,7 @@ ASSUMPTIONS = [
     'sequentially consistent interleaving; one critical section of the mutex-internal spinlock = one atomic step',
     'agent contract of Base/Agent.v plus arbitrary stale wake-up tokens (OSpur): a resume aimed at a running task may be delivered to any later suspension (observed on the real runtime: delayed set_active_state helper)',
     'user programs of spinlock/recursive mutex unlock only what they hold (the primitives do not check); pika::mutex programs are arbitrary',
+    'recursive_mutex_impl<pika::mutex> on tasks is checked by runtime monitors only (the recursive layer is modelled over the spinlock and tied in lock-step); its shadow owner is set after an outermost acquisition returned and cleared before the outermost unlock is called',
     'hooks 601..607/603 sit inside the internal critical sections, 610..625 immediately before the atomic access they announce',
 ]
 
@@ -70,6 +71,58 @@ def mx_monitor(inl, outl):
     return None
 
 
+def rmx_monitor(inl, outl):
+    """recursive_mutex_impl<pika::mutex> on tasks: the property on the implementation's observations of one case"""
+    f = fields(outl)
+    if int(f.get('occ_bad', '0')) > 0:
+        return 'exclusion', 'a first acquisition found another task inside (shadow owner) on case [%s] observed [%s]' % (inl[:300], outl[-300:])
+    if int(f.get('exc', '0')) > 0:
+        return 'exception', 'an operation threw (pika::mutex reports a lock by its owner as deadlock and an unlock by a non-owner as lock_error: the recursive layer called the underlying mutex when it must not): case [%s] observed [%s]' % (inl[:300], outl[-300:])
+    if int(f.get('owner_try_fail', '0')) > 0:
+        return 'owner_try_lock', 'try_lock by the owning task failed on case [%s] observed [%s]' % (inl[:300], outl[-300:])
+    if int(f.get('depth_bad', '0')) > 0:
+        return 'depth', 'shadow nesting depth differs from the owner\'s nesting on case [%s] observed [%s]' % (inl[:300], outl[-300:])
+    if f.get('hang', '0') != '0':
+        return 'progress', 'tasks blocked forever (watchdog): case [%s] observed [%s]' % (inl[:300], outl[-400:])
+    if 'final' in f and 'writes' in f and f['final'] != f['writes']:
+        return 'lost_update', 'unprotected data: %s increments inside critical sections, final value %s: case [%s]' % (f['writes'], f['final'], inl[:300])
+    if f.get('end_owner', '-1') != '-1' or f.get('end_depth', '0') != '0' or int(f.get('unfinished', '0')) > 0:
+        return 'progress', 'case ended with the mutex still held / tasks unfinished: case [%s] observed [%s]' % (inl[:300], outl[-300:])
+    return None
+
+
+def run_rmx(ctx, r, h_rt, sd, n, timeout):
+    rc, out = sh([h_rt, str(sd), str(n), 'rm'], timeout=timeout)
+    lines = out.split('\n')
+    ins = [x for x in lines if x.startswith('IN RMX ')]
+    outs = [x for x in lines if x.startswith('OUT RMX ')]
+    rep0 = {'harness': 'c06_rt', 'args': [sd, n, 'rm']}
+    if rc != 0 or not outs:
+        r.hits.append(Hit('monitor' if rc in (124, -6, 134, -11, 139) and outs else 'tie', 'C06:recursive_rt:harness',
+                          'c06_rt %s %s rm failed rc=%d: %s' % (sd, n, rc, out[-600:]), rep0))
+    inmap = {x.split(' ')[2]: x for x in ins}
+    r.evaluations += len(outs)
+    tot = {'acq': 0, 'reacq': 0, 'tryfail': 0, 'waited': 0, 'migr': 0, 'writes': 0}
+    for o_ in outs:
+        p = o_.split(' ')
+        i_ = inmap.get(p[2], '')
+        f = fields(o_)
+        T = int(i_.split(' ')[3]) if i_ else 0
+        r.count('RMX tasks=%d' % T)
+        for k in tot:
+            tot[k] += int(f.get(k, '0'))
+        if T >= 2 and int(f.get('reacq', '0')) > 0 and int(f.get('tryfail', '0')) + int(f.get('waited', '0')) > 0:
+            r.nontrivial(i_)
+        m = rmx_monitor(i_, o_)
+        if m:
+            r.hits.append(Hit('monitor', 'C06:recursive_rt:%s' % m[0], 'recursive_mutex_impl<pika::mutex> on tasks: ' + m[1],
+                              dict(rep0, case=i_, observed=o_)))
+    for s_ in list(zip(ins, outs))[:1]:
+        r.sample({'recursive_rt_programs': s_[0][:300], 'observed': s_[1][:400]})
+    for k in tot:
+        r.extra['recursive_rt_' + k] = r.extra.get('recursive_rt_' + k, 0) + tot[k]
+
+
 def run_pair(ctx, r, drv, harness, args, timeout, kinds):
     rc, out = sh([harness] + [str(a) for a in args], timeout=timeout)
     lines = out.split('\n')
@@ -90,7 +143,11 @@ def run(ctx):
               'schedule and predicts sites and results.  TRACE (pika::timed_mutex on pika tasks, 4 workers, 1..12 tasks): '
               'seeded programs of lock/try_lock/try_lock_for/unlock/write/yield incl. misuse, busy-wait perturbation at the hooks; '
               'the model replays the order of the internal critical sections and predicts every decision, error and data '
-              'version seen.  Non-trivial = >=2 threads/tasks and at least one wait or failed try; distinct = distinct IN lines')
+              'version seen.  RECURSIVE-RT (c06_rt <seed> <n> rm: pika::detail::recursive_mutex_impl<pika::mutex> on 2..8 tasks, 4 workers): '
+              'seeded programs of lock/try_lock/unlock re-entrant to depth 4, read-yield-write of unprotected data and yields inside the '
+              'critical sections (owner migrates between workers); monitors only: occupancy via a shadow owner, shadow depth, try_lock by the '
+              'owner succeeds, no exception from the underlying pika::mutex, lost updates, progress watchdog; non-trivial there = a re-entrant '
+              'acquisition and a failed try_lock / contended lock in the same case.  Non-trivial = >=2 threads/tasks and at least one wait or failed try; distinct = distinct IN lines')
     ctx.build_pika()
     drv = ctx.build_model('C06', 'ExtractC06.v', 'drv_c06.ml')
     h_ls = ctx.build_harness('c06_ls', 'c06_ls.cpp')
@@ -105,6 +162,7 @@ def run(ctx):
             pass
     n_ls = 10000 if quick else 30000
     n_rt = 10000 if quick else 30000
+    n_rm = 20000 if quick else 100000
     late_total = 0
     for sd in seeds:
         # ---- lock-step
@@ -167,6 +225,8 @@ def run(ctx):
                               {'harness': 'c06_rt', 'args': [sd, n_rt], 'case': inmap.get(k), 'impl': a, 'model': b}))
         for s in list(zip(ins, outs))[:2]:
             r.sample({'trace_programs_and_cs_order': s[0][:400], 'observed': s[1][:600]})
+        # ---- recursive_mutex_impl<pika::mutex> on tasks (monitors only)
+        run_rmx(ctx, r, h_rt, sd, n_rm, 600 if quick else 2400)
     r.extra['late_resumes_delivered_to_a_later_suspension'] = late_total
     if late_total:
         r.notes.append('%d spurious wake-ups of lock() explained by a delayed set_active_state helper (stale resume of a notified timed waiter); the while loop re-tested the owner each time' % late_total)
